@@ -16,6 +16,8 @@ CONSTANTS
   StopAfterOps = 6
   StopPcs = {"notstarted", "top", "shortcut", "select", "get", "handling", "handled", "apply", "exit", "stopped"}
   ElapsedAlways = FALSE
+  WithCancel = TRUE
+  CancelPcs = {"notstarted", "top", "shortcut", "select", "get", "handling", "handled", "apply", "exit", "stopped"}
 VIEW View
 INVARIANTS NoLateStart
 
